@@ -87,6 +87,20 @@ C14Tree(bytes, tree, wsLayout) ==
                     i \in {j \in 1 .. Len(l) : \E b \in Range(l[j].lay) : ~IsWs(b)}}
            ELSE {})
 
+(* ---- layout twins ----------------------------------------------------------- *)
+\* shape without offsets: what "the same tree" means for two renderings of one token string
+RECURSIVE ShapeK(_)
+ShapeK(n) ==
+  IF n.k = "t" THEN <<"t", n.t>>
+  ELSE LET ch == [i \in 1 .. Len(n.c) |-> ShapeK(n.c[i])]
+           RECURSIVE Trim(_)
+           Trim(x) == IF x # <<>> /\ x[Len(x)][1] = "n" /\ x[Len(x)][4] = 0
+                      THEN Trim(SubSeq(x, 1, Len(x) - 1)) ELSE x
+           RECURSIVE YLen(_)
+           YLen(i) == IF i > Len(ch) THEN 0 ELSE (IF ch[i][1] = "t" THEN 1 ELSE ch[i][4]) + YLen(i + 1)
+       IN <<"n", n.p, Trim(ch), YLen(1)>>
+
+
 (* ---- C02: the tree is a derivation of the lexemes ----------------------- *)
 \* lex: the harness's own lexeme list [[off, len, kind]...] the input was built from
 LexKinds(lex) == [i \in 1 .. Len(lex) |-> lex[i][3]]
